@@ -57,6 +57,7 @@ class FeatureIdStorage:
         self.id_distributor = id_distributor
         self.id_dict = {}
         self.feature_name = feature
+        self.reference_ids = set()
         if not genedb or not chr_id:
             return
 
@@ -68,12 +69,16 @@ class FeatureIdStorage:
                     self.id_dict[feature_tuple] = f.attributes[id_attribute][0]
                 except IndexError:
                     pass
+        self.reference_ids = set(self.id_dict.values())
 
     def get_id(self, chr_id, feature, strand):
         feature_tuple = (chr_id, feature[0], feature[1], strand)
         if feature_tuple not in self.id_dict:
-            feature_id = self.id_distributor.increment()
-            self.id_dict[feature_tuple] = chr_id + ".%d" % feature_id
+            feature_id = chr_id + ".%d" % self.id_distributor.increment()
+            # do not reuse ids that are already taken by the reference annotation
+            while feature_id in self.reference_ids:
+                feature_id = chr_id + ".%d" % self.id_distributor.increment()
+            self.id_dict[feature_tuple] = feature_id
 
         return self.id_dict[feature_tuple]
 
